@@ -20,6 +20,8 @@
 //!   c01.xref             classic cross-reference tables, well-formed and mutated (huge counts, missing entries),
 //!                        and soup, through `read_xref_and_trailer_at`
 //!
+//!   c01.date / c01.cs / c01.font   hand-written typed readers on hostile primitives and object tables: c01_typed.rs
+//!
 //!   c01.registry         the generated schemas satisfy the decidable hypothesis of `typed_registry_total` (driver-evaluated)
 //!
 //! Model side: `c03.*` requests are answered by Drv/C03.lean (same models), `c01.*` by Drv/C01.lean.
@@ -256,7 +258,13 @@ fn both_c01(req: &str, model: &str) -> (String, String) {
 }
 
 fn both(req: &str, model: &str) -> (String, String) {
-    if req.starts_with("c03.") { c03::both_sides(req, model) } else { both_c01(req, model) }
+    if req.starts_with("c03.") {
+        c03::both_sides(req, model)
+    } else if req.starts_with("c01.date ") || req.starts_with("c01.cs ") || req.starts_with("c01.font ") {
+        super::typed::both_typed(req, model)
+    } else {
+        both_c01(req, model)
+    }
 }
 
 /// what a request calls, for the oracle's signature
@@ -284,6 +292,9 @@ fn entry_point(req: &str) -> String {
         "c01.hexbyte" => "HexStringLexer::next_hex_byte".into(),
         "c01.inline" => "content::parse_ops(inline_image)".into(),
         "c01.xref" => "read_xref_and_trailer_at".into(),
+        "c01.date" => "Date::from_primitive".into(),
+        "c01.cs" => "ColorSpace::from_primitive".into(),
+        "c01.font" => "Font::from_primitive".into(),
         x => x.to_string(),
     }
 }
@@ -752,6 +763,49 @@ fn registry_stream(driver: &Driver) -> Stream {
     st
 }
 
+fn typed_streams(run: &mut Runner, seed: u64, n: u64) -> Vec<Stream> {
+    let mut out = vec![];
+    let mut st = Stream::new("c01.date", true);
+    let reqs = super::typed::date_requests(seed, 2 * n, &mut st);
+    run.compare(&mut st, reqs);
+    out.push(st);
+    let mut st = Stream::new("c01.cs", true);
+    let reqs = super::typed::cs_requests(seed, n, &mut st);
+    // what the inputs exercise: the family at the top, the nesting of the value, the recorded loads
+    for m in run.driver.ask(&reqs) {
+        let f: Vec<&str> = m.split(' ').collect();
+        if f.len() == 3 && f[0] == "ok" {
+            st.count(&format!("top={}", f[1].split('(').next().unwrap_or("")));
+            st.count(&format!("nesting={}", f[1].matches("I(").count() + f[1].matches("S(").count() + f[1].matches("DN(").count()));
+            if f[2] != "-" {
+                for c in f[2].split('|') {
+                    st.count(&format!("recorded-load={}", &c[..1]));
+                }
+            }
+            if f[1].contains('?') {
+                st.count("lookup=deferred");
+            }
+        }
+    }
+    run.compare(&mut st, reqs);
+    out.push(st);
+    let mut st = Stream::new("c01.font", true);
+    let reqs = super::typed::font_requests(seed, n, &mut st);
+    for m in run.driver.ask(&reqs) {
+        let f: Vec<&str> = m.split(' ').collect();
+        if f.len() == 8 && f[0] == "ok" {
+            st.count(&format!("plan:loader={}", f[6]));
+            st.count(if f[3] == "-" { "plan:encoding=none" } else if f[3].ends_with('/') { "plan:encoding=base" } else { "plan:encoding=differences" });
+            st.count(if f[4] == "-" { "plan:tounicode=absent" } else { "plan:tounicode=present" });
+        } else {
+            st.count(&format!("plan:{}", f[0]));
+        }
+    }
+    run.compare(&mut st, reqs);
+    out.push(st);
+    out
+}
+
 pub fn streams(driver: &Driver, seed: u64, thorough: bool) -> (Vec<Stream>, Oracle) {
     let mut run = Runner::new(driver, seed);
     let k: u64 = if thorough { 40 } else { 1 };
@@ -766,6 +820,7 @@ pub fn streams(driver: &Driver, seed: u64, thorough: bool) -> (Vec<Stream>, Orac
     out.push(deep_stream(&mut run));
     out.push(inline_stream(&mut run, seed, 6_000 * k));
     out.push(xref_stream(&mut run, seed, 10_000 * k));
+    out.extend(typed_streams(&mut run, seed, 6_000 * k));
     (out, run.oracle)
 }
 
